@@ -220,7 +220,26 @@ class HistGen:
         r = self.r
         f = {"ids": [], "authors": [], "kinds": [], "tags": [], "since": None, "until": None, "limit": None}
         base = r.choice(self.events) if self.events and r.random() < 0.85 else None
-        shape = r.choice(["ids", "authors", "ak", "at", "kt", "t", "scrape", "kinds", "mixed", "mixed"])
+        shape = r.choice(["ids", "authors", "ak", "at", "kt", "t", "scrape", "kinds", "mixed", "mixed", "akt", "akt"])
+        if shape == "akt":
+            # authors + kinds + tag constraint (served by the author-kind plan; the tag constraint only filters):
+            # all events of one (author, kind), constrained by the tag values several of them carry
+            pool = [e for e in self.events if any(len(t) >= 2 and len(t[0]) == 1 for t in e["tags"])]
+            if pool:
+                base = r.choice(pool)
+                same = [e for e in self.events if e["pk"] == base["pk"] and e["kind"] == base["kind"]]
+                letter = r.choice([t[0] for t in base["tags"] if len(t) >= 2 and len(t[0]) == 1])
+                vals = []
+                for e in same:
+                    for t in e["tags"]:
+                        if len(t) >= 2 and t[0] == letter and t[1] not in vals:
+                            vals.append(t[1])
+                r.shuffle(vals)
+                f["authors"] = [base["pk"]] + ([r.choice(AUTHORS)] if r.random() < 0.3 else [])
+                f["kinds"] = [base["kind"]] + ([r.choice(KINDS)] if r.random() < 0.3 else [])
+                f["tags"] = [[letter] + vals[:r.choice([1, 2, 3, 5])]]
+            else:
+                shape = "ak"
         pick = lambda pool, own, n: ([own] if own is not None and r.random() < 0.8 else []) + [r.choice(pool) for _ in range(r.choice([0, 0, 1, n]))]
         if shape in ("ids", "mixed") and (shape == "ids" or r.random() < 0.3):
             f["ids"] = pick(self.ids or [bytes(32)], base["id"] if base else None, 3)
